@@ -310,6 +310,76 @@ func loopFacts(s *src, f *facts) {
 		}
 		return false
 	}
+	// Between two reads a loop does nothing that can wait: outside the goroutines it spawns, its body
+	// holds no channel operation, select, lock or wait — neither directly nor inside a local closure
+	// it calls — except the read itself and setErr (whose critical sections are bounded).
+	closures := map[string]*ast.FuncLit{}
+	for _, a := range all[*ast.AssignStmt](lb, nil) {
+		if len(a.Lhs) == 1 && len(a.Rhs) == 1 {
+			if id, ok := a.Lhs[0].(*ast.Ident); ok {
+				if fl := first(all[*ast.FuncLit](a.Rhs[0], nil)); fl != nil {
+					if _, direct := a.Rhs[0].(*ast.FuncLit); direct || strings.Contains(s.str(a.Rhs[0]), "sync.Once") {
+						closures[id.Name] = fl
+					}
+				}
+			}
+		}
+	}
+	var waits func(n ast.Node, exempt map[string]bool, depth int) bool
+	waits = func(n ast.Node, exempt map[string]bool, depth int) bool {
+		if isNilNode(n) || depth > 4 {
+			return false
+		}
+		found := false
+		ast.Inspect(n, func(x ast.Node) bool {
+			if found || x == nil {
+				return false
+			}
+			switch v := x.(type) {
+			case *ast.GoStmt:
+				return false
+			case *ast.SendStmt, *ast.SelectStmt:
+				found = true
+			case *ast.UnaryExpr:
+				if v.Op.String() == "<-" {
+					found = true
+				}
+			case *ast.RangeStmt:
+				// ranging over a channel waits; ranging over anything else is fine (cannot tell: be strict on `chan` text)
+			case *ast.CallExpr:
+				if sel, ok := v.Fun.(*ast.SelectorExpr); ok {
+					switch sel.Sel.Name {
+					case "Lock", "RLock", "Wait", "Acquire":
+						found = true
+					}
+				}
+				if id, ok := v.Fun.(*ast.Ident); ok && !exempt[id.Name] {
+					if fl, ok := closures[id.Name]; ok && waits(fl.Body, exempt, depth+1) {
+						found = true
+					}
+				}
+			}
+			return !found
+		})
+		return found
+	}
+	onlyRead := func(loop *ast.ForStmt) bool {
+		if loop == nil || len(loop.Body.List) == 0 {
+			return false
+		}
+		exempt := map[string]bool{"setErr": true}
+		// the read: the call on the right-hand side of the loop's first statement
+		if a, ok := loop.Body.List[0].(*ast.AssignStmt); ok && len(a.Rhs) == 1 {
+			if c, ok := a.Rhs[0].(*ast.CallExpr); ok {
+				if id, ok := c.Fun.(*ast.Ident); ok {
+					exempt[id.Name] = true
+				}
+			}
+		}
+		return !waits(loop.Body, exempt, 0)
+	}
+	f.b("reqLoopBlocksOnlyOnRead", onlyRead(reqLoop), s.pos(reqLoop))
+	f.b("respLoopBlocksOnlyOnRead", onlyRead(respLoop), s.pos(respLoop))
 	f.b("reqFrameFreshPerIteration", declaredIn(reqLoop, "utils.Request["), s.pos(reqLoop))
 	f.b("respFrameFreshPerIteration", declaredIn(respLoop, "utils.Response["), s.pos(respLoop))
 }
